@@ -187,7 +187,8 @@ func runEq(ctx *common.Ctx, g *gen, n int) {
 	footer := "Definition res := Eval vm_compute in check_all_eq cases.\nPrint res.\n" +
 		"Definition model_mismatches := Eval vm_compute in eq_mismatches cases : N.\nPrint model_mismatches.\n" +
 		"Definition law_violations_outside_guard := Eval vm_compute in outside_guard_violations cases : N.\nPrint law_violations_outside_guard.\n" +
-		"Definition refs_in_transitivity_guard := Eval vm_compute in guarded_triples cases : N.\nPrint refs_in_transitivity_guard.\n"
+		"Definition refs_in_transitivity_guard := Eval vm_compute in guarded_triples cases : N.\nPrint refs_in_transitivity_guard.\n" +
+		"Definition cases_with_inconsistent_data_words := Eval vm_compute in inconsistent_cases cases : N.\nPrint cases_with_inconsistent_data_words.\n"
 	ctx.WriteShards("cases_eq", header, "eq_case", footer, terms, descs, 8)
 	ctx.Meta.Evaluations += len(terms)
 	ctx.Meta.DistinctNontrivial += nontrivial
@@ -385,13 +386,18 @@ func runHt(ctx *common.Ctx, g *gen, n int) {
 			key := pool[i].o
 			switch r := g.rng.Intn(20); {
 			case r < 8:
+				// values are fixnums 1..90, or nil (written 0 in the case: the model's values are integers)
 				v := int64(g.rng.Intn(90) + 1)
+				var vo slip.Object = slip.Fixnum(v)
+				if g.rng.Chance(12) {
+					v, vo = 0, nil
+				}
 				ops = append(ops, fmt.Sprintf("HPut %d %s", i, common.GZ(v)))
-				out := evalForm(s, slip.List{slip.Symbol("setf"), slip.List{slip.Symbol("gethash"), quote(key), ht}, slip.Fixnum(v)})
+				out := evalForm(s, slip.List{slip.Symbol("setf"), slip.List{slip.Symbol("gethash"), quote(key), ht}, vo})
 				if out.Err != "" {
 					obs = append(obs, errObs(out))
-				} else if f, ok := first(out.Value).(slip.Fixnum); ok {
-					obs = append(obs, "OVal "+common.GZ(int64(f)))
+				} else if z, ok := valCode(first(out.Value)); ok {
+					obs = append(obs, "OVal "+common.GZ(z))
 				} else {
 					obs = append(obs, "OBadKey")
 				}
@@ -409,8 +415,8 @@ func runHt(ctx *common.Ctx, g *gen, n int) {
 				default:
 					vs, _ := out.Value.(slip.Values)
 					if len(vs) == 2 && vs[1] == slip.True {
-						if f, ok := vs[0].(slip.Fixnum); ok {
-							obs = append(obs, "OGet (Some "+common.GZ(int64(f))+")")
+						if z, ok := valCode(vs[0]); ok {
+							obs = append(obs, "OGet (Some "+common.GZ(z)+")")
 						} else {
 							obs = append(obs, "OBadKey")
 						}
@@ -519,7 +525,7 @@ func mapObs(s *slip.Scope, ht slip.Object, pool []aref) string {
 		if !ok || len(pair) != 2 {
 			return "OBadKey"
 		}
-		f, ok := pair[1].(slip.Fixnum)
+		f, ok := valCode(pair[1])
 		if !ok {
 			return "OBadKey"
 		}
@@ -533,7 +539,7 @@ func mapObs(s *slip.Scope, ht slip.Object, pool []aref) string {
 		if idx < 0 {
 			return "OBadKey"
 		}
-		ents = append(ents, ent{idx, int64(f)})
+		ents = append(ents, ent{idx, f})
 	}
 	sort.Slice(ents, func(a, b int) bool { return ents[a].i < ents[b].i || (ents[a].i == ents[b].i && ents[a].v < ents[b].v) })
 	items := make([]string, len(ents))
@@ -589,4 +595,15 @@ func noteLaws(ctx *common.Ctx, shows, kindsOf []string, m [3][3][4]int, hs []str
 			note("law:not-reflexive", shows[i])
 		}
 	}
+}
+
+// valCode: stored values are fixnums 1..90 or nil, written 0
+func valCode(o slip.Object) (int64, bool) {
+	if o == nil {
+		return 0, true
+	}
+	if f, ok := o.(slip.Fixnum); ok && f != 0 {
+		return int64(f), true
+	}
+	return 0, false
 }
